@@ -286,3 +286,82 @@ func ruleDeactivateRange(c *Ctx) {
 	}
 	_ = sort.Strings
 }
+
+// UNPARSED-SCAN: Rewrite's test for pending text looks at every inline child.
+func ruleUnparsedScan(c *Ctx) {
+	c.Rule("UNPARSED-SCAN", "The predicate by which Rewrite decides whether a block still has text to parse (hasUnparsed) examines every inline child of the block: a unit-stride loop over the whole list that answers true for any child of kind Unparsed. A shortcut that looks at the first child only skips a paragraph that begins with an Indent node (a reference definition followed by a tab-indented continuation line inside a container), and its Unparsed nodes stay in the finished tree.")
+	p := c.P
+	fn := p.Func("hasUnparsed")
+	if !c.NeedFunc("UNPARSED-SCAN", fn, "hasUnparsed") {
+		return
+	}
+	unp, _ := kindValue(p, "InlineKind", "UnparsedKind")
+	found := false
+	okAll, why := true, ""
+	eachInstr(fn, func(in ssa.Instruction) {
+		ia, ok := in.(*ssa.IndexAddr)
+		if !ok {
+			return
+		}
+		if _, ok := isLoadOfFieldAny(ia.X, "inlineChildren"); !ok {
+			return
+		}
+		found = true
+		if ok2, w := unitStrideOver(ia.Index, ia.X); !ok2 {
+			// unitStrideOver wants len(param); accept len of the same list load
+			okAll, why = false, w
+			ph, isPhi := ia.Index.(*ssa.Phi)
+			bo, isBo := ia.Index.(*ssa.BinOp)
+			if isBo {
+				ph, isPhi = bo.X.(*ssa.Phi)
+			}
+			if isPhi {
+				// range loop over the list: index phi starting at -1/0 with +1 steps, bounded by len of a load of the same field
+				start, step, bounded := false, false, false
+				for _, e := range ph.Edges {
+					if k, isC := constInt(e); isC && (k == 0 || k == -1) {
+						start = true
+					}
+					if b2, ok := e.(*ssa.BinOp); ok && b2.Op == token.ADD && b2.X == ssa.Value(ph) {
+						if one, isC := constInt(b2.Y); isC && one == 1 {
+							step = true
+						}
+					}
+				}
+				for _, blk := range fn.Blocks {
+					if iff := blockIf(blk); iff != nil {
+						if cmp, ok := iff.Cond.(*ssa.BinOp); ok && cmp.Op == token.LSS {
+							if cl, ok := isBuiltinCall(cmp.Y, "len"); ok {
+								if _, ok := isLoadOfFieldAny(cl.Call.Args[0], "inlineChildren"); ok {
+									bounded = true
+								}
+							}
+						}
+					}
+				}
+				if start && step && bounded {
+					okAll, why = true, ""
+				}
+			}
+		}
+	})
+	if !found {
+		c.Viol("UNPARSED-SCAN", "hasUnparsed:loop", fn.Pos(), "no loop over the block's inline children")
+		return
+	}
+	// constant index (first child only)?
+	eachInstr(fn, func(in ssa.Instruction) {
+		if ia, ok := in.(*ssa.IndexAddr); ok {
+			if _, isList := isLoadOfFieldAny(ia.X, "inlineChildren"); isList {
+				if _, isC := constInt(ia.Index); isC {
+					okAll, why = false, "a child at a constant position decides for the whole block"
+				}
+			}
+		}
+	})
+	_ = unp
+	if why == "" {
+		why = "every inline child is examined"
+	}
+	c.Check(okAll, "UNPARSED-SCAN", "hasUnparsed", fn.Pos(), why)
+}
